@@ -38,6 +38,7 @@ impl MapUniverse {
             repeat: self.repeat,
             stream_style: 0,
             cs_tenths: 0,
+            frac_tenths: 0,
         }
     }
 
